@@ -344,6 +344,8 @@ class GenCfg:
         self.p_llvm = 0.35         # share of calls that are llvm.call (opaque, never annotated)
         self.p_repeat = 0.25       # a triple repeats the field values of an earlier triple (same accelerator)
         self.p_prethreaded = 0.0   # share of loops that already carry the state as iter_arg/result
+        self.p_branch_first = 0.08 # `if c { triple V }` directly followed by the same triple V (an accelerator may
+                                   # be configured for the first time inside the branch)
         for k, v in kw.items():
             setattr(self, k, v)
 
@@ -372,13 +374,15 @@ class _Gen:
         self.params.append((n, ty, kind))
         return n
 
-    def triple(self, pool, ind, last_state):
+    def triple(self, pool, ind, last_state, force=None):
         a = self.rng.choice(self.accs)
         vals = [(f, self.rng.choice(pool)) for f in self.fields[a]]
+        if force is not None:
+            a, vals = force
         # repeat the configuration of an earlier triple (wherever it was: inside a branch, a loop body ...)
         # when all its values are visible here
         olds = [v for (b, v) in self.history if b == a and all(x in pool for _, x in v)]
-        if olds and self.rng.random() < self.cfg.p_repeat:
+        if force is None and olds and self.rng.random() < self.cfg.p_repeat:
             vals = list(self.rng.choice(olds))
         self.history.append((a, list(vals)))
         s, t = self.fresh("s"), self.fresh("t")
@@ -407,6 +411,18 @@ class _Gen:
         for _ in range(n):
             self.items += 1
             r = rng.random()
+            if depth < cfg.max_depth and rng.random() < cfg.p_branch_first and self.items < 40:
+                a = rng.choice(self.accs)
+                vals = [(f, rng.choice(pool)) for f in self.fields[a]]
+                c = self.param("i1", "cond")
+                lines.append(f"{ind}scf.if {c} {{")
+                lines += self.triple(pool, ind + "  ", {}, force=(a, vals))
+                lines.append(f"{ind}  scf.yield")
+                lines.append(f"{ind}}}")
+                self.nifs += 1
+                last_state = {}
+                lines += self.triple(pool, ind, last_state, force=(a, vals))
+                continue
             if depth < cfg.max_depth and r < cfg.p_for and self.items < 40:
                 lb, ub, st = self.param("index", "lb"), self.param("index", "ub"), self.param("index", "step")
                 i = self.fresh("i")
